@@ -14,15 +14,19 @@ pub struct Stub {
     pub log: Vec<J>,
     pub puts: usize,
     pub gets: usize,
-    pub fail_put_nth: Option<usize>,   // fail the nth PUT (1-based) of the current case
-    pub fail_put_always: bool,         // ... and every PUT after it
+    pub fail_put_nth: Option<usize>,   // fail the nth PUT request (1-based) of the current case
+    pub fail_put_always: bool,         // ... and every PUT request after it
     pub fail_get_once: bool,
+    pub put_ops: usize,                // PutObject operations (an SDK attempt number 1 starts one)
+    pub fail_op_nth: Option<usize>,    // fail every SDK attempt of the nth PutObject operation
+    pub fail_op_always: bool,          // ... and of every operation after it
 }
 
 lazy_static::lazy_static! {
     pub static ref STUB: Arc<Mutex<Stub>> = Arc::new(Mutex::new(Stub {
         objects: BTreeMap::new(), log: vec![], puts: 0, gets: 0,
         fail_put_nth: None, fail_put_always: false, fail_get_once: false,
+        put_ops: 0, fail_op_nth: None, fail_op_always: false,
     }));
 }
 
@@ -87,6 +91,11 @@ pub fn start_stub() -> u16 {
             let url = rq.url().to_string();
             let mut body = vec![];
             let _ = rq.as_reader().read_to_end(&mut body);
+            // "amz-sdk-request: attempt=1; max=3": the SDK's own retries of one operation
+            let attempt: usize = rq.headers().iter()
+                .find(|h| h.field.as_str().as_str().eq_ignore_ascii_case("amz-sdk-request"))
+                .and_then(|h| h.value.as_str().split(';').find_map(|p| p.trim().strip_prefix("attempt=").and_then(|a| a.parse().ok())))
+                .unwrap_or(1);
             let chunked = rq.headers().iter().any(|h| {
                 let f = h.field.as_str().as_str().to_ascii_lowercase();
                 let v = h.value.as_str().to_ascii_lowercase();
@@ -103,12 +112,18 @@ pub fn start_stub() -> u16 {
             let mut st = STUB.lock().unwrap();
             let resp: (u16, Vec<u8>) = if method == "PUT" {
                 st.puts += 1;
-                let n = st.puts;
+                if attempt <= 1 {
+                    st.put_ops += 1;
+                }
+                let (n, opn) = (st.puts, st.put_ops);
                 let fail = match st.fail_put_nth {
                     Some(k) => n == k || (st.fail_put_always && n > k),
                     None => false,
+                } || match st.fail_op_nth {
+                    Some(k) => opn == k || (st.fail_op_always && opn > k),
+                    None => false,
                 };
-                st.log.push(json!({"m":"PUT","path":path,"bytes":body.len(),"failed":fail}));
+                st.log.push(json!({"m":"PUT","path":path,"bytes":body.len(),"failed":fail,"op":opn,"attempt":attempt}));
                 if fail {
                     (500, b"<Error><Code>InternalError</Code><Message>injected</Message></Error>".to_vec())
                 } else {
@@ -194,6 +209,9 @@ pub fn main(args: &[String]) {
             st.fail_put_nth = case["fail_put_nth"].as_u64().map(|x| x as usize);
             st.fail_put_always = case["fail_put_always"].as_bool() == Some(true);
             st.fail_get_once = false;
+            st.put_ops = 0;
+            st.fail_op_nth = case["fail_op_nth"].as_u64().map(|x| x as usize);
+            st.fail_op_always = case["fail_op_always"].as_bool() == Some(true);
         }
         crate::seq::run_case(&case, workdir, &mut out, n);
     }
